@@ -432,6 +432,8 @@ def make(seed, **kw):
         return make_dense(seed)
     if kw.pop('twoblocks', False) and seed % 7 == 5:
         return make_twoblocks(seed)
+    if kw.pop('sparseinput', False) and seed % 11 == 6:
+        return make_sparseinput(seed)
     if kw.pop('case_titles', False) and 'sheets' not in kw:
         if seed % 4 == 3:
             kw['sheets'] = LAYOUT_CASE
@@ -550,6 +552,29 @@ def make_dense(seed):
     g.cells[f3] = {'k': 'f', 'e': ['op', '+', ['ref', f1], ['ref', f2]]}
     g.order += [f1, f2, f3]
     g.directed = [[in1], [in2], [in1, in2]]
+    g.seed = seed
+    return g
+
+
+def make_sparseinput(seed):
+    """A sparse range (two or more blanks, some stored cells) that is worth supplying as a
+    whole (g.directed_ranges), read through the range and - its stored cells - directly."""
+    rnd = random.Random(seed * 79 + 13)
+    g = Gen(rnd, sheets=LAYOUT[:1], features=())
+    b, s = LAYOUT[0]
+    vert = rnd.random() < 0.5
+    stored = sorted(rnd.sample(range(1, 6), rnd.randint(1, 3)))
+    line = {k: (cid(b, s, 1, k) if vert else cid(b, s, k, 1)) for k in range(1, 6)}
+    for k in stored:
+        g.cells[line[k]] = {'k': 'c', 'v': norm(rnd.choice(NUMS))}
+        g.order.append(line[k])
+    rect = ['rng', b, s, 1, 1, 1, 5] if vert else ['rng', b, s, 1, 1, 5, 1]
+    f1, f2, f3 = cid(b, s, 7, 7), cid(b, s, 7, 8), cid(b, s, 7, 9)
+    g.cells[f1] = {'k': 'f', 'e': ['fn', rnd.choice(['SUM', 'MAX', 'COUNT']), [rect]]}
+    g.cells[f2] = {'k': 'f', 'e': ['op', '*', ['ref', line[stored[-1]]], ['c', norm(V.N(2))]]}
+    g.cells[f3] = {'k': 'f', 'e': ['op', '+', ['ref', f1], ['ref', f2]]}
+    g.order += [f1, f2, f3]
+    g.directed_ranges = [rect]
     g.seed = seed
     return g
 
